@@ -22,9 +22,11 @@ Conventions
 * Limits (`l > 4`, `cnt > 5`, `cnt = 2`) come from `Mqtt.Generated.Facts`.
 * Not modelled: a `conn.Read` that returns `(0, nil)` (the loop just repeats),
   `int(remlen)` wrapping for a remaining length ≥ 2^63 (five length bytes cannot
-  express it), and defect F3 (a packet of more than ring size − 8 KiB arriving
-  in small pieces can wedge receiver and processor — property C16's subject):
-  here `ReadWait n` succeeds as soon as the peer has sent `n ≤ size` bytes.
+  express it).  `ReadWait n` succeeds as soon as the peer has sent `n ≤ size`
+  bytes: that the receiver really gets them into the ring, in pieces of any
+  sizes, is the repair of finding F3 (repository commit 8f682d1: `ReadFrom`
+  reads whenever one byte is free; `C15_ReadFrom_waits_only_when_full`,
+  property C16's `C16_chunked_packet_completes`).
 -/
 import Mqtt.Generated.Facts
 import Mqtt.Model.Codec
